@@ -340,6 +340,7 @@ fn cmd_validate(m: BTreeMap<String, String>) -> i32 {
         bytes,
         kind: exec::WrittenKind::Sfnt,
         glyphs: None,
+        source_ok: None,
     };
     for (k, v) in sfnt_check::validate(&w, true, true) {
         println!("{}: {}", k, v);
